@@ -192,9 +192,11 @@ func (fr *Frame) callByContract(site ssa.Instruction, key string, sp *Block, nam
 	for _, it := range items {
 		fr.checkWrite(st, site, it, "callee "+short+" modifies")
 	}
-	fc.havocItems(st, items)
 	nn := fc.sc.Fresh("next", SInt)
 	fc.sc.Assert(Ge(nn, st.next))
+	fc.hvBound = nn
+	fc.havocItems(st, items)
+	fc.hvBound = nil
 	st.next = nn
 	// lock effects
 	for _, c := range sp.ClausesOf("acquires") {
@@ -409,12 +411,14 @@ func (fr *Frame) callFuncValue(site ssa.Instruction, c *ssa.CallCommon, fv Val, 
 	cnt := "calls_" + pname
 	n := fc.ghostInt(st, cnt)
 	pre := st.clone()
-	if !strings.HasPrefix(rest, "pure") {
-		fc.havocItems(st, []locItem{{kind: "any"}})
-	}
-	st.ghosts[cnt] = fc.sc.Define(cnt, Add(n, IntLit(1)))
 	nn := fc.sc.Fresh("next", SInt)
 	fc.sc.Assert(Ge(nn, st.next))
+	if !strings.HasPrefix(rest, "pure") {
+		fc.hvBound = nn
+		fc.havocItems(st, []locItem{{kind: "any"}})
+		fc.hvBound = nil
+	}
+	st.ghosts[cnt] = fc.sc.Define(cnt, Add(n, IntLit(1)))
 	st.next = nn
 	if strings.HasPrefix(rest, "preserves") {
 		for _, part := range splitTop(strings.TrimSpace(rest[len("preserves"):]), ',') {
@@ -525,6 +529,21 @@ func (fr *Frame) callBuiltin(site ssa.Instruction, b *ssa.Builtin, c *ssa.CallCo
 			}
 			fc.sc.Assert(mk(SBool, fmt.Sprintf("(forall ((k!q Int)) (! (and (=> (and (<= 0 k!q) (< k!q %s)) (= (select %s k!q) (select %s (+ %s k!q)))) (=> (and (<= %s k!q) (< k!q %s)) (= (select %s k!q) %s))) :pattern ((select %s k!q))))",
 				base.S, row.S, oldRow.S, SOff(s).S, base.S, lim.S, row.S, addTerm, row.S)))
+			// the same facts over elt_S terms (what quantified specs are triggered by)
+			if w == 1 {
+				en := "elt_" + string(lf.Sort)
+				fc.sc.Assert(mk(SBool, fmt.Sprintf("(forall ((j!q Int)) (! (=> (and (<= 0 j!q) (< j!q %s)) (= (%s %s 0 j!q) (%s %s %s j!q))) :pattern ((%s %s 0 j!q)) :pattern ((%s %s %s j!q))))",
+					base.S, en, row.S, en, oldRow.S, SOff(s).S, en, row.S, en, oldRow.S, SOff(s).S)))
+				if !isStr {
+					a := args[1].T
+					addRow := Select(h, SArr(a))
+					if n, ok := numVal(addLen); ok && n.IsInt64() && n.Int64() <= 4 {
+						for j := int64(0); j < n.Int64(); j++ {
+							fc.assume(st, Eq(app(lf.Sort, en, row, IntLit(0), Add(base, IntLit(j))), app(lf.Sort, en, addRow, SOff(a), IntLit(j))))
+						}
+					}
+				}
+			}
 			fc.setHeap(st, leafHeapName(lf.Sort), Store(h, obj, row))
 		}
 		return []Val{scalar(MkSlice(obj, IntLit(0), newLen, newCap))}
